@@ -3,6 +3,8 @@ import MySensors.Driver.GwCmd
 import MySensors.Driver.PersistCmd
 import MySensors.Driver.OtaCmd
 import MySensors.Driver.FramingCmd
+import MySensors.Driver.TablesCmd
+import MySensors.Driver.SpecCmd
 
 namespace MySensors.Driver
 open MySensors
@@ -32,7 +34,7 @@ def valCmd (cmd : String) (args : List String) : Option String :=
 
 /-- state-free command groups; each property family adds its own `…Cmd` here -/
 def cmdTable : List (String → List String → Option String) :=
-  [codecCmd, valCmd, mqttCmd, framingCmd, otaCmd, persistCmd]
+  [codecCmd, valCmd, mqttCmd, framingCmd, otaCmd, persistCmd, tablesCmd, specCmd]
 
 /-- one protocol line → new driver state and one output line -/
 def stepLine (st : DState) (line : String) : DState × String :=
